@@ -492,6 +492,57 @@ theorem minp_perm (vdim : Nat) {pts pts' : List (Pt ℝ)} (h : pts.Perm pts') : 
   exact minL_perm (h.map _)
 
 
+
+/-! ## the linear-time contract check used by the driver implies the contract -/
+
+theorem ordRel_refl (lg : Bool) (a : ℝ) : ordRel lg a a := by cases lg <;> simp [ordRel]
+
+theorem pairwise_of_adjacent {r : ℝ → ℝ → Prop} (htr : ∀ a b c, r a b → r b c → r a c) :
+    ∀ xs : List ℝ, (∀ p ∈ xs.zip xs.tail, r p.1 p.2) → xs.Pairwise r
+  | [], _ => List.Pairwise.nil
+  | [_], _ => by simp
+  | a :: b :: rest, h => by
+    have hab : r a b := h (a, b) (by simp)
+    have ih : (b :: rest).Pairwise r := pairwise_of_adjacent htr (b :: rest) (fun p hp => h p (by
+      simp only [List.tail_cons, List.zip_cons_cons, List.mem_cons] at hp ⊢
+      exact Or.inr hp))
+    rw [List.pairwise_cons]
+    refine ⟨?_, ih⟩
+    intro y hy
+    rcases List.mem_cons.1 hy with rfl | hy
+    · exact hab
+    · exact htr _ _ _ hab ((List.pairwise_cons.1 ih).1 y hy)
+
+theorem topkOkFast_sound (largest : Bool) (vals : List ℝ) (kk : Nat) (idx : List Nat)
+    (h : topkOkFast largest vals kk idx = true) : TopkSpec (ordRel largest) vals kk idx := by
+  unfold topkOkFast at h
+  simp only [Bool.and_eq_true, beq_iff_eq, List.all_eq_true, decide_eq_true_eq, k0_real] at h
+  obtain ⟨⟨⟨⟨h1, h2⟩, h3⟩, h4⟩, h5⟩ := h
+  have hpw : (idx.map fun i => vals.getD i 0).Pairwise (ordRel largest) :=
+    pairwise_of_adjacent (r := ordRel largest) (fun a b c => ordRel_trans largest) _
+      (fun p hp => (leB_iff largest p.1 p.2).1 (h4 p hp))
+  refine ⟨h1, h3, h2, hpw, ?_⟩
+  intro i hi j hj hnot
+  rcases hl : idx.getLast? with _ | l
+  · rw [List.getLast?_eq_none_iff] at hl
+    subst hl
+    simp at hi
+  · rw [hl] at h5
+    simp only [List.all_eq_true, List.mem_range, Bool.or_eq_true, List.contains_iff_mem, leB_iff] at h5
+    have hlj : ordRel largest (vals.getD l 0) (vals.getD j 0) := by
+      rcases h5 j hj with h | h
+      · exact absurd h hnot
+      · exact h
+    obtain ⟨ys, rfl⟩ : ∃ ys, idx = ys ++ [l] := by
+      rw [List.getLast?_eq_some_iff] at hl
+      exact hl
+    rw [List.map_append, List.pairwise_append] at hpw
+    rcases List.mem_append.1 hi with hi | hi
+    · exact ordRel_trans largest (hpw.2.2 _ (List.mem_map.2 ⟨i, hi, rfl⟩) _ (by simp)) hlj
+    · simp only [List.mem_singleton] at hi
+      subst hi
+      exact hlj
+
 /-! ## contracts of the external kernels, brute-force definitions used in the property statements -/
 
 /-- `torch.topk` meets its contract whenever `k` does not exceed the length -/
